@@ -94,23 +94,40 @@ def check(position: str, f) -> list[str]:
 
 
 def replay(case: dict) -> list[str]:
-    for h in case.get("history", []):
-        check(case["position"], tuple(h))
-    return check(case["position"], tuple(case["fields"]))
+    core.set_ambient(False, bool(case.get("dst_zone")))
+    try:
+        for h in case.get("history", []):
+            check(case["position"], tuple(h))
+        return check(case["position"], tuple(case["fields"]))
+    finally:
+        core.set_ambient(False, False)
+
+
+def switch_night(f) -> bool:
+    """Civil times in the hours in which some zone changes to or from daylight saving time (a Sunday in March, October
+    or November, 00:00..04:59): decoded in a UTC process and in a process whose zone has such a switch."""
+    y, mo, d, h = f[:4]
+    return mo in (3, 10, 11) and h <= 4 and 1 <= d <= calendar.monthrange(y, mo)[1] and calendar.weekday(y, mo, d) == 6
 
 
 def _work(task) -> core.Part:
     position, fields_list = task
     p = core.Part()
+    amb = dict(core.AMBIENT)
     for f in fields_list:
-        e = check(position, f)
-        p.add("evaluations")
-        p.out("tz-aware" if f[7] is not None else "naive")
-        if e:
-            p.viol("datetime", f"datetime:{position}:{RC.dt12(*f).hex()}", e[0], {"position": position, "fields": list(f)}, size=1)
-            if p.full("datetime"):
-                p.capped = True
-                break
+        zones = (False, True) if switch_night(f) else (amb["dst_zone"],)
+        for zone in zones:
+            core.set_ambient(amb["lowprec"], zone)
+            e = check(position, f)
+            p.add("evaluations")
+            p.out("tz-aware" if f[7] is not None else "naive")
+            if e:
+                p.viol("datetime", f"datetime:{position}:{RC.dt12(*f).hex()}:{zone}", e[0] + (" (process zone CET/CEST)" if zone else " (process zone UTC)"),
+                       {"position": position, "fields": list(f), "dst_zone": zone}, size=1)
+        if p.full("datetime"):
+            p.capped = True
+            break
+    core.set_ambient(amb["lowprec"], amb["dst_zone"])
     return p
 
 
@@ -207,6 +224,17 @@ def sweep_fields(quick: bool, seed: int):
         for mo in range(1, 13):
             out.append((y, mo, calendar.monthrange(y, mo)[1], 0, 0, 0, 0xFF, None, 0, 0xFF))
             out.append((y, mo, 1, 0, 0, 0, 0xFF, None, 0, 0xFF))
+    # the nights on which European / US zones change to and from daylight saving time, every half hour 00:00..04:00
+    for y in (2021, 2024, 2026):
+        days = []
+        for mo, last in ((3, True), (10, True), (3, False), (11, False)):
+            cal = calendar.monthcalendar(y, mo)
+            suns = [w[6] for w in cal if w[6]]
+            days.append((mo, suns[-1] if last else (suns[1] if mo == 3 else suns[0])))
+        for mo, d in days:
+            for half in range(0, 9):
+                for dev in (None, -60, -120, 0):
+                    out.append((y, mo, d, half // 2, 30 * (half % 2), 15, 29, dev, 0, 0xFF))
     step = 61 if quick else 1
     for t in range(0, 86400, step):
         out.append((2022, 6, 15, t // 3600, t // 60 % 60, t % 60, 0xFF, 120, 0, 0xFF))
